@@ -172,3 +172,40 @@ MANIFEST_TEXT["C06"] = {
     "technique": "stateful property-based testing (rapid): model-based + snapshot round-trip + replica differential",
 }
 NOT_APPLICABLE[:] = [e for e in NOT_APPLICABLE if e["property_id"] not in CHECKS]
+
+CHECKS["C07"] = {
+    "test": "TestC07",
+    "quick": {"shards": 8, "checks": 1500},
+    "thorough": {"shards": 16, "checks": 6000},
+    "rule": "block histories as in C01 driven through Stump.Update only; per block the remembered add indexes are drawn from the classes none / all / last / first / "
+            "random / last-plus-random (ascending []uint32, as callers pass it); the light client starts with an empty proof and calls Proof.Update with the block's "
+            "targets, added hashes, remember indexes and the returned UpdateData. After every block: held leaves == (previous minus deleted) plus remembered adds "
+            "(both directions), each paired with the model's position, proof hashes == model canonical proof, Verify accepts, and the proof equals Pollard.Prove "
+            "for the same leaves. Non-trivial: contains a block with a non-empty cache before and after in which a cached leaf changes position or a leaf is "
+            "remembered. Counted: remembered last leaf, remembered leaf that is a lone root, remembering in a block that overwrites an empty root.",
+    "assumptions": COMMON_ASSUME,
+}
+MANIFEST_TEXT["C07"] = {
+    "level_text": "Exploration: model-based check of the cached proof after every block of generated histories with forced remember classes. Unbounded histories, sampled.",
+    "design_ref": "DESIGN.md section 6 C07",
+    "level_note": TRUST,
+    "technique": "stateful property-based testing (rapid), model-based oracle (exact leaf set, positions, canonical proof) + differential vs full prover",
+}
+CHECKS["C11"] = {
+    "test": "TestC11",
+    "quick": {"shards": 8, "checks": 1500},
+    "thorough": {"shards": 16, "checks": 6000},
+    "rule": "block histories as in C07 through Stump.Update; after every successful update the returned UpdateData is compared field by field with values derived "
+            "from the reference model only: PrevNumLeaves; ToDestroy (empty trees popped by the binary addition, post-block layout, destruction order); "
+            "NewDelPos/NewDelHash (every pre-block node on a target->root path, ascending, with the compressed hash of what survives under it, zero if nothing); "
+            "NewAddPos/NewAddHash (every added leaf and both children of every post-block inner node holding a new leaf, ascending, no duplicates). "
+            "Non-trivial: contains a block with >=1 deletion and >=2 additions.",
+    "assumptions": COMMON_ASSUME,
+}
+MANIFEST_TEXT["C11"] = {
+    "level_text": "Exploration: exact (both-direction) comparison of every UpdateData field with a model-derived expectation over generated histories.",
+    "design_ref": "DESIGN.md section 6 C11",
+    "level_note": TRUST,
+    "technique": "property-based testing (rapid), model-based oracle independent of Stump.add / calculateHashes",
+}
+NOT_APPLICABLE[:] = [e for e in NOT_APPLICABLE if e["property_id"] not in CHECKS]
